@@ -24,6 +24,8 @@ func unify(x, y *Type, m map[string]*Type, inProcess util.PtrPtrSet) *Type {
 		// return nil
 	} else {
 		inProcess.Add(x, y)
+		// 只在处理过程中标记, 否则共享子结构 (DAG, 非递归) 的类型会被误判成递归类型
+		defer inProcess.Remove(x, y)
 	}
 
 	switch {
